@@ -13,7 +13,7 @@ import glob, json, os, re, subprocess, sys, time
 lane, n_lanes = int(sys.argv[1]), int(sys.argv[2])
 only = set(sys.argv[3:])
 WT = f"/tmp/mut/lane{lane}"
-RELATED = {"C01": ["C01", "C13", "C14", "C04"], "C02": ["C02", "C19", "C01"], "C04": ["C04", "C08"], "C05": ["C05", "C06"], "C06": ["C06", "C05"], "C08": ["C08"],
+RELATED = {"C01": ["C01", "C13", "C14", "C04"], "C02": ["C02", "C19", "C01"], "C04": ["C04", "C08"], "C05": ["C05", "C06"], "C06": ["C06", "C05", "C15"], "C08": ["C08"],
            "C09": ["C09"], "C10": ["C10"], "C11": ["C11", "C01", "C14"], "C13": ["C13", "C14"], "C14": ["C14", "C13"], "C15": ["C15"], "C16": ["C16"],
            "C19": ["C19"], "C20": ["C20"], "C03": ["C03", "C07"], "C07": ["C07", "C01", "C04"]}
 
